@@ -146,6 +146,21 @@ def rule_d1(ck, prog, S):
     miss = [ps for ps in sums if not any(a is call and pol is True for a, pol in ps.facts if not isinstance(pol, tuple))]
     if any(ps.ret is None or ps.ret.truth() is not False for ps in miss):
         problems.append("a path without any match does not return FALSE")
+    # every entry is handed to the matcher: no cycle of the scan gets round the matchCommand call (a pre-filter on the first
+    # letter, a cache, ... decides 'no match' on its own and is wrong for patterns it does not understand)
+    pg = S.pg(f)
+    for h, body in C.loops(f):
+        if f.where[call.id][0].id not in body:
+            continue
+        starts = [e.dst for e in pg.out[(h.id, 0)] if e.dst[0] in body and not (e.kind == "elem" and e.node is call)]
+        reach = pg.reachable(starts, blocked_edge=lambda e: (e.kind == "elem" and e.node is call) or e.dst[0] not in body)
+        if (h.id, 0) in reach and not (h.id == f.where[call.id][0].id and f.where[call.id][1] == 0):
+            path = pg.find_path(starts, lambda p_: p_ == (h.id, 0),
+                                blocked_edge=lambda e: (e.kind == "elem" and e.node is call) or e.dst[0] not in body)
+            skipping = [e_ for e_ in (path or []) if e_.kind == "edge" and e_.label and e_.label[0] in ("true", "false")]
+            problems.append("an entry of the command table can be passed over without asking matchCommand (%s): which "
+                            "entry accepts a header is decided by the matcher alone" % (
+                                ", ".join("`%s` is %s" % (e_.label[1].src, e_.label[0]) for e_ in skipping[:3]) or "cycle without the call"))
     if problems:
         ck.violated("C02-D1", st, K.loc(f, call), "; ".join(problems))
     else:
